@@ -167,8 +167,84 @@ def every_resolved_cgroup_is_returned(ctx, tag):
               "an iteration whose lookup succeeded appends the context", "an iteration can complete with a context found but not appended to the result")
 
 
+def ceiling_at_most_each_bound(ctx):
+    """'The limit written never exceeds the least of MemTotal, usage + limit_max_bytes and memory.max': the value getLimitMaxBytes returns
+    has been capped by each of the three on every value-returning path (std::min with the bound, cumulatively, or its conditional
+    spelling), and not overwritten by an uncapped value afterwards.  Bounding one summand in init() does not bound the sum."""
+    P, cg = ctx.prog, ctx.cg
+    f = ctx.use(ctx.fn1("Oomd::Senpai::getLimitMaxBytes"))
+    X = Expander(P, f)
+    rets = [(r, leaf) for r, leaf in return_leaves(f) if X(leaf) not in ("std::nullopt", "{}")]
+    if not rets:
+        ctx.broken("ceiling-at-most-each-bound", "anchor", f.loc(), "getLimitMaxBytes has no value return")
+        return
+    mm = locals_receiving(f, r"memory_max\(")
+    BOUNDS = {
+        "MemTotal": r"this->host_mem_total_",
+        "usage + limit_max_bytes": r"this->limit_max_bytes_ \+ |\+ this->limit_max_bytes_",
+        "memory.max": "|".join([r"\*%s\b|\b%s\.value\(\)" % (re.escape(x_), re.escape(x_)) for x_ in mm] + [r"memory_max\((nullptr)?\)"]),
+    }
+    for r, leaf in rets:
+        t = X(leaf)
+        m = re.match(r"^var:(\w+)$", t)
+        if not m:
+            # a single expression: every bound appears under one (nested) std::min
+            miss = [b for b, rx in BOUNDS.items() if not ("std::min(" in t and re.search(rx, t))]
+            ctx.check(not miss, "ceiling-at-most-each-bound@%d" % f.nodes[r].get("line", 0), "value-shape + must_precede", f.loc(r),
+                      "the returned ceiling is a std::min over all three bounds", "getLimitMaxBytes returns %s, which is not capped by %s" % (t[:80], ", ".join(miss)))
+            continue
+        var = m.group(1)
+        V = re.escape(var)
+        ws = list(local_writes(f, var, must=False))
+        init, v = local_init(f, var, must=False)
+        ev = {}
+
+        def classify(node, rhs_node):
+            tt = f.text(rhs_node)
+            has = [b for b, rx in BOUNDS.items() if re.search(rx, tt)]
+            cumulative = re.search(r"(?<![\w.])%s(?![\w])" % V, tt) is not None
+            evs = []
+            if "std::min(" in tt and cumulative:
+                evs = [("set", "capped:" + b) for b in has]
+            elif "std::min(" in tt:
+                evs = [("clear", "capped:" + b) for b in BOUNDS if b not in has] + [("set", "capped:" + b) for b in has]
+            else:
+                g_ = flg.guards(node) if f.pos_of(node) is not None else []
+                only = [b for b in has if re.fullmatch(r"\(?(%s)\)?" % BOUNDS[b], tt)]
+                cond_max = only and any(isinstance(k, str) and p is True and re.match(r"^\((%s > .*|.* < %s)\)$" % (V, V), k) for k, p in g_)
+                if cond_max:
+                    evs = [("set", "capped:" + only[0])]         # `if (x > B) x = B;`
+                else:
+                    evs = [("clear", "capped:" + b) for b in BOUNDS if b not in has] + [("set", "capped:" + b) for b in has if "+" in tt and b == "usage + limit_max_bytes"]
+            return evs
+        flg = Flow(P, f, cg=cg)
+        for w in ws:
+            if f.pos_of(w) is not None:
+                ev[w] = classify(w, write_rhs(f, w))
+        if v is not None and init is not None and init >= 0:
+            d_, _ = f.vardecl(v["decl"]) if v.get("decl") else (None, None)
+            if d_ is not None and f.pos_of(d_) is not None:
+                ev[d_] = classify(d_, init)
+
+        def tok(k, p):
+            if not isinstance(k, str):
+                return None
+            out = []
+            for b, rx in BOUNDS.items():
+                if (re.match(r"^\((%s > (%s)|(%s) < %s)\)$" % (V, rx, rx, V), k) and p is False) or (re.match(r"^\((%s <= (%s)|(%s) >= %s)\)$" % (V, rx, rx, V), k) and p is True):
+                    out.append("capped:" + b)
+            return out or None
+        fl = Flow(P, f, events=ev, cg=cg, edge_tokens=tok)
+        miss = [b for b in BOUNDS if not fl.must(r, "capped:" + b)]
+        ctx.check(not miss, "ceiling-at-most-each-bound@%d" % f.nodes[r].get("line", 0), "value-shape + must_precede", f.loc(r),
+                  "the returned ceiling has been capped by MemTotal, usage + limit_max_bytes and memory.max",
+                  "getLimitMaxBytes returns %s without it having been capped by %s on every path (std::min with that bound, kept through the later caps): the limit "
+                  "Senpai writes can exceed that bound" % (var, ", ".join(miss)), witness_path(f, fl, r))
+
+
 def run(ctx):
     floor_at_least_memory_min(ctx)
+    ceiling_at_most_each_bound(ctx)
     configured_paths_resolved_every_time(ctx)
     every_resolved_cgroup_is_returned(ctx, "C18")
     from .C15 import every_context_refreshed
